@@ -4,7 +4,7 @@ import SaModel.Props.C10Arrays
 C11 — how a record is presented does not change the arrays: the statements about the ARRAYS.
 
 Props/C11.lean proves presentation independence of the builder state (`dec`).  Composed with the end-to-end theorem
-`C01.C01_build_decode` (the arrays `toMarrow` returns decode, slot by slot, to `interpRow` of the records):
+`C01.C01_build_decode'` (no `Safe`) (the arrays `toMarrow` returns decode, slot by slot, to `interpRow` of the records):
 
   C11_presentations                   two batches with the same documented rows (`interpRow`, which matches records by
                                       NAME), both accepted: the returned arrays decode identically, column by column.
@@ -53,7 +53,7 @@ theorem cols_ext (n : Nat) : ∀ (c1 c2 : List (String × List LVal)),
     rw [htl, Prod.ext hn.1 hab]
 
 /-- two batches with the same documented rows: what their arrays decode to is the same (from the conclusion of
-`C01_build_decode` for each) -/
+`C01_build_decode'` for each) -/
 theorem DecodesTo_unique {ext : Ext} {fields : List Field} {arrs1 arrs2 : List Arr} {rows1 rows2 : List SVal}
     (hsame : rows1.map (interpRow ext fields) = rows2.map (interpRow ext fields))
     (h1 : C10.DecodesTo ext fields arrs1 rows1) (h2 : C10.DecodesTo ext fields arrs2 rows2) :
@@ -80,18 +80,17 @@ record by record the same documented value `interpRow ext fields` (records match
 struct / map with string keys / tuple in schema order, any field order, extra fields, absent nullable field vs explicit
 `None`, `Some`/newtype layers, integer widths …: `record_as_map`, `record_perm`, `extra_field_ignored`) — and both
 accepted by `to_marrow`: the returned arrays decode (`Spec.decodeAll`, the Arrow reading rules) to the same columns.
-Hypotheses: those of `C01.C01_build_decode` (`RawRows`: its two hypotheses on the records — raw call streams alternate;
+Hypotheses: those of `C01.C01_build_decode'` (no `Safe`) (`RawRows`: its two hypotheses on the records — raw call streams alternate;
 the sentinel bound when a record contains a raw stream). -/
 theorem C11_presentations (ext : Ext) (fields : List Field) (rows1 rows2 : List SVal) (arrs1 arrs2 : List Arr)
     (hschema : ∀ f ∈ fields, Lemmas.C03.SchemaOKF f)
     (hcov : fields.all Build.coveredF = true)
-    (hsafe : ∀ root0, newRoot fields = .ok root0 → Safe root0)
     (hraw1 : RawRows fields rows1) (hraw2 : RawRows fields rows2)
     (hsame : rows1.map (interpRow ext fields) = rows2.map (interpRow ext fields))
     (h1 : toMarrow ext fields rows1 = .ok arrs1) (h2 : toMarrow ext fields rows2 = .ok arrs2) :
     arrs1.map decodeAll = arrs2.map decodeAll :=
-  DecodesTo_unique hsame (C01.C01_build_decode ext fields rows1 arrs1 hschema hcov hsafe hraw1.1 hraw1.2 h1)
-    (C01.C01_build_decode ext fields rows2 arrs2 hschema hcov hsafe hraw2.1 hraw2.2 h2)
+  DecodesTo_unique hsame (C01.C01_build_decode' ext fields rows1 arrs1 hschema hcov hraw1.1 hraw1.2 h1)
+    (C01.C01_build_decode' ext fields rows2 arrs2 hschema hcov hraw2.1 hraw2.2 h2)
 
 /-- the hypothesis of `C11_presentations` in index form: same number of records, record `i` means the same -/
 theorem same_rows_of_index (ext : Ext) (fields : List Field) (rows1 rows2 : List SVal) (hlen : rows1.length = rows2.length)
@@ -122,14 +121,13 @@ then slot `i` of the first batch's arrays decodes, column by column, like slot `
 theorem C11_neighbours_undisturbed (ext : Ext) (fields : List Field) (rows1 rows2 : List SVal) (arrs1 arrs2 : List Arr)
     (hschema : ∀ f ∈ fields, Lemmas.C03.SchemaOKF f)
     (hcov : fields.all Build.coveredF = true)
-    (hsafe : ∀ root0, newRoot fields = .ok root0 → Safe root0)
     (hraw1 : RawRows fields rows1) (hraw2 : RawRows fields rows2)
     (h1 : toMarrow ext fields rows1 = .ok arrs1) (h2 : toMarrow ext fields rows2 = .ok arrs2)
     (i j : Nat) (hi : i < rows1.length) (hj : j < rows2.length)
     (hsame : interpRow ext fields rows1[i] = interpRow ext fields rows2[j]) :
     (arrs1.map decodeAll).map (·[i]?) = (arrs2.map decodeAll).map (·[j]?) := by
-  obtain ⟨_, cols1, a1, _, l1, r1⟩ := C01.C01_build_decode ext fields rows1 arrs1 hschema hcov hsafe hraw1.1 hraw1.2 h1
-  obtain ⟨_, cols2, a2, _, l2, r2⟩ := C01.C01_build_decode ext fields rows2 arrs2 hschema hcov hsafe hraw2.1 hraw2.2 h2
+  obtain ⟨_, cols1, a1, _, l1, r1⟩ := C01.C01_build_decode' ext fields rows1 arrs1 hschema hcov hraw1.1 hraw1.2 h1
+  obtain ⟨_, cols2, a2, _, l2, r2⟩ := C01.C01_build_decode' ext fields rows2 arrs2 hschema hcov hraw2.1 hraw2.2 h2
   rw [a1, a2, slot_of_cols _ i hi cols1 l1, slot_of_cols _ j hj cols2 l2]
   have e1 := r1 i hi
   rw [hsame, r2 j hj] at e1
@@ -140,16 +138,15 @@ theorem C11_neighbours_undisturbed (ext : Ext) (fields : List Field) (rows1 rows
 
 /-- **no documented value ⇒ refused.**  If some record of a batch has no documented value (`interpRow` is an error:
 an absent non-nullable field, a field given twice, a value the column cannot hold, …), `to_marrow` does not succeed —
-in any presentation.  (Contrapositive of the soundness half of `C01_build_decode`.) -/
+in any presentation.  (Contrapositive of the soundness half of `C01_build_decode'`.) -/
 theorem C11_undefined_refused (ext : Ext) (fields : List Field) (rows : List SVal)
     (hschema : ∀ f ∈ fields, Lemmas.C03.SchemaOKF f)
     (hcov : fields.all Build.coveredF = true)
-    (hsafe : ∀ root0, newRoot fields = .ok root0 → Safe root0)
     (hraw : RawRows fields rows)
     (x : SVal) (hx : x ∈ rows) (e : Fail) (hbad : interpRow ext fields x = .error e) :
     ∀ arrs, toMarrow ext fields rows ≠ .ok arrs := by
   intro arrs h
-  obtain ⟨_, cols, _, _, _, hr⟩ := C01.C01_build_decode ext fields rows arrs hschema hcov hsafe hraw.1 hraw.2 h
+  obtain ⟨_, cols, _, _, _, hr⟩ := C01.C01_build_decode' ext fields rows arrs hschema hcov hraw.1 hraw.2 h
   obtain ⟨i, hi, rfl⟩ := List.getElem_of_mem hx
   rw [hr i hi] at hbad
   cases hbad
@@ -159,7 +156,6 @@ the same at any nesting depth through `interpDT`, `absent_required_is_error` / `
 theorem C11_missing_or_duplicate_refused (ext : Ext) (fields : List Field) (rows : List SVal)
     (hschema : ∀ f ∈ fields, Lemmas.C03.SchemaOKF f)
     (hcov : fields.all Build.coveredF = true)
-    (hsafe : ∀ root0, newRoot fields = .ok root0 → Safe root0)
     (hraw : RawRows fields rows)
     (nm : String) (fs : SFields) (hx : SVal.record nm fs ∈ rows) (f : Field) (hf : f ∈ fields)
     (hbad : (f.nullable = false ∧ SFields.count f.name fs = 0) ∨ 2 ≤ SFields.count f.name fs) :
@@ -170,7 +166,7 @@ theorem C11_missing_or_duplicate_refused (ext : Ext) (fields : List Field) (rows
     · exact absent_required_is_error ext _ false [] nm fs f hf' h1 h2
     · exact duplicate_is_error ext _ false [] nm fs f hf' h
   obtain ⟨e, he⟩ := this
-  exact C11_undefined_refused ext fields rows hschema hcov hsafe hraw _ hx e he
+  exact C11_undefined_refused ext fields rows hschema hcov hraw _ hx e he
 
 /-! ### along ArrayBuilder histories -/
 
@@ -179,7 +175,7 @@ by record, the same logical rows (in whatever presentation, added through whatev
 returns arrays that decode exactly like the arrays of the corresponding build of the other. -/
 theorem C11_histories_presentations (ext : Ext) (fields : List Field) (r0 : B) (h0 : newRoot fields = .ok r0)
     (hschema : ∀ f ∈ fields, Lemmas.C03.SchemaOKF f)
-    (hcov : fields.all Build.coveredF = true) (hsafe : Safe r0)
+    (hcov : fields.all Build.coveredF = true)
     (ops ops' : List C10.Op) (hraw : C10.OpsOK (fun x => structStreamsAlternate x = true) ops)
     (hnar : C10.OpsOK (fun x => noRaw x = true) ops ∨ narrowRoot fields = true)
     (hraw' : C10.OpsOK (fun x => structStreamsAlternate x = true) ops')
@@ -189,8 +185,8 @@ theorem C11_histories_presentations (ext : Ext) (fields : List Field) (r0 : B) (
     (outs outs' : List (B × List Arr)) (fin fin' : B)
     (h : C10.run ext r0 ops = .ok (outs, fin)) (h' : C10.run ext r0 ops' = .ok (outs', fin')) :
     outs.map (·.2.map decodeAll) = outs'.map (·.2.map decodeAll) := by
-  obtain ⟨l1, b1, d1⟩ := C10.C10_histories ext fields r0 h0 hschema hcov hsafe ops hraw hnar outs fin h
-  obtain ⟨l2, b2, d2⟩ := C10.C10_histories ext fields r0 h0 hschema hcov hsafe ops' hraw' hnar' outs' fin' h'
+  obtain ⟨l1, b1, d1⟩ := C10.C10_histories ext fields r0 h0 hschema hcov ops hraw hnar outs fin h
+  obtain ⟨l2, b2, d2⟩ := C10.C10_histories ext fields r0 h0 hschema hcov ops' hraw' hnar' outs' fin' h'
   have hb : (C10.batchesFrom [] ops).length = (C10.batchesFrom [] ops').length := by
     simpa using congrArg List.length hsame
   apply List.ext_getElem (by simp only [List.length_map]; omega)
@@ -220,12 +216,11 @@ means: the arrays `to_marrow` returns for `Items(vs)` decode like the arrays it 
 theorem items_arrays (ext : Ext) (fields : List Field) (al : Nat) (vs rows : List SVal) (arrs1 arrs2 : List Arr)
     (hschema : ∀ f ∈ fields, Lemmas.C03.SchemaOKF f)
     (hcov : fields.all Build.coveredF = true)
-    (hsafe : ∀ root0, newRoot fields = .ok root0 → Safe root0)
     (hraw1 : RawRows fields (vs.map (serItem al))) (hraw2 : RawRows fields rows)
     (hsame : (vs.map (serItem al)).map (interpRow ext fields) = rows.map (interpRow ext fields))
     (h1 : toMarrow ext fields (vs.map (serItem al)) = .ok arrs1) (h2 : toMarrow ext fields rows = .ok arrs2) :
     arrs1.map decodeAll = arrs2.map decodeAll :=
-  C11_presentations ext fields _ rows arrs1 arrs2 hschema hcov hsafe hraw1 hraw2 hsame h1 h2
+  C11_presentations ext fields _ rows arrs1 arrs2 hschema hcov hraw1 hraw2 hsame h1 h2
 
 /-- instances of `hsame`: the records `nm { item: v }` of any struct type, and the maps `{"item": v}` -/
 theorem items_same_as_records (ext : Ext) (fields : List Field) (al al' : Nat) (nm : String) (vs : List SVal) :
@@ -263,25 +258,17 @@ theorem exOk : (toMarrow {} exFields exRows1).isOk = true ∧ (toMarrow {} exFie
   constructor <;> decide +kernel
 
 theorem exSchema : ∀ f ∈ exFields, Lemmas.C03.SchemaOKF f := by simp [exFields, Lemmas.C03.SchemaOKF, Lemmas.C03.SchemaOK]
-theorem exSafe : ∀ root0, newRoot exFields = .ok root0 → Safe root0 := by
-  intro root0 h0
-  rw [show newRoot exFields = .ok (.struct "$" 0 none
-    (.cons (.leaf "$.a" (.int .i32) none []) ⟨"a", false, []⟩
-      (.cons (.bytes "$.b" .utf8 (some []) [0] []) ⟨"b", true, []⟩ .nil)) [none, none] 0 [false, false]) from by decide] at h0
-  cases h0
-  simp [Safe, SafeL]
-
 /-- `C11_presentations` applies with every hypothesis discharged -/
 example : ∀ arrs1 arrs2, toMarrow {} exFields exRows1 = .ok arrs1 → toMarrow {} exFields exRows2 = .ok arrs2 →
     arrs1.map decodeAll = arrs2.map decodeAll := fun arrs1 arrs2 h1 h2 =>
-  C11_presentations {} exFields exRows1 exRows2 arrs1 arrs2 exSchema (by decide) exSafe (RawRows.of_noRaw (by decide))
+  C11_presentations {} exFields exRows1 exRows2 arrs1 arrs2 exSchema (by decide) (RawRows.of_noRaw (by decide))
     (RawRows.of_noRaw (by decide)) exSame h1 h2
 
 /-- `C11_neighbours_undisturbed`: the second record of the struct batch alone, as a tuple: slot 1 there = slot 0 here -/
 example : ∀ arrs1 arrs2, toMarrow {} exFields exRows1 = .ok arrs1 →
     toMarrow {} exFields [.tuple (.cons (.int .i64 2) (.cons .none .nil))] = .ok arrs2 →
     (arrs1.map decodeAll).map (·[1]?) = (arrs2.map decodeAll).map (·[0]?) := fun arrs1 arrs2 h1 h2 =>
-  C11_neighbours_undisturbed {} exFields exRows1 _ arrs1 arrs2 exSchema (by decide) exSafe (RawRows.of_noRaw (by decide))
+  C11_neighbours_undisturbed {} exFields exRows1 _ arrs1 arrs2 exSchema (by decide) (RawRows.of_noRaw (by decide))
     (RawRows.of_noRaw (by decide)) h1 h2 1 0 (by decide) (by decide) (by decide +kernel)
 
 /-- absent required field `a` / field `b` given twice: no documented value, refused -/
@@ -296,5 +283,16 @@ example : (∃ e, interpRow {} exFields (.record "R" (.cons "b" 1 (.str "x") .ni
 /-- `Items([7u8, 9u8])` against `[item: Int32]`: accepted, and the column decodes to 7, 9 -/
 example : (toMarrow {} [.mk "item" .int32 false []] ([SVal.int .u8 7, .int .u8 9].map (serItem 0))).map (·.map decodeAll) =
     .ok [[.ok (.int 7), .ok (.int 9)]] := by decide +kernel
+
+/-- non-vacuity, on the schema OUTSIDE `Safe` of Props/C01Obs.lean: the same logical batch (null, {d: "a"}, null) as
+structs and as maps / an absent nullable field -/
+example : ∀ arrs1 arrs2, toMarrow {} C01.exUnsafeFields C01.exUnsafeRows = .ok arrs1 →
+    toMarrow {} C01.exUnsafeFields
+      [.map .nil, .map (.cons (.str "s") (.map (.cons (.str "d") (.str "a") .nil)) .nil), .record "Q" .nil] = .ok arrs2 →
+    arrs1.map decodeAll = arrs2.map decodeAll := by
+  intro arrs1 arrs2 h1 h2
+  refine C11_presentations {} _ _ _ arrs1 arrs2 ?_ (by decide) (RawRows.of_noRaw (by decide))
+    (RawRows.of_noRaw (by decide)) (by decide +kernel) h1 h2
+  simp [C01.exUnsafeFields, Lemmas.C03.SchemaOKF, Lemmas.C03.SchemaOK, Lemmas.C03.SchemaOKFs]
 
 end SaModel.Props.C11
